@@ -13,7 +13,7 @@ from typing import Dict, List, Optional
 
 from ..index import AnalysisError, call_name, norm, norm1, names_in, walk_no_nested
 from ..taint import OrderTaint
-from .common import (calls, enclosing, enclosing_all, fctx, fstring_pattern, in_body, is_name, method_calls, same,
+from .common import (calls, enclosing, enclosing_all, fctx, fstring_pattern, in_body, is_name, method_calls, pmatch, same,
                      stmts, store_targets)
 
 LEVEL = "other"
@@ -31,13 +31,23 @@ RG = "wannierberri/run_grid.py"
 KP = "wannierberri/grid/Kpoint.py"
 
 
+_IDX: list = []
+
+
 def _open_patterns(fi) -> List[tuple]:
     """(pattern, mode, call) for every open(os.path.join(dir, <fstring>), mode) in the function."""
     out = []
+    from ..sem import Sem
+    S = Sem(_IDX[0], fi) if _IDX and hasattr(fi, "module") else None
     for c in calls(fi.node, "open", suffix=False):
         if not c.args:
             continue
         a = c.args[0]
+        if S is not None and isinstance(a, (ast.Call, ast.Name)) and not (isinstance(a, ast.Call) and call_name(a) == "os.path.join"):
+            try:
+                a = S.resolve(a, S.du.node_of_expr(c))
+            except Exception:
+                pass
         mode = c.args[1].value if len(c.args) > 1 and isinstance(c.args[1], ast.Constant) else "r"
         if isinstance(a, ast.Call) and call_name(a) == "os.path.join" and a.args:
             pat = fstring_pattern(a.args[-1])
@@ -86,6 +96,7 @@ def _eval_str_chain(e: ast.AST, var: str, value: str):
 
 def run(ctx) -> None:
     idx = ctx.index
+    _IDX[:] = [idx]
     ctx.assume("glob / os.listdir / scandir / iterdir return entries in arbitrary order (documented)")
 
     # ---------------------------------------------------------------- R11.1
@@ -125,8 +136,9 @@ def run(ctx) -> None:
 
     # ---------------------------------------------------------------- R11.2
     r2 = ctx.rule("R11.2", "weight-file names: writer, reader, glob and index parser agree", min_instances=3)
-    wf = idx.function(RG, "write_factors")
-    rf = idx.function(RG, "read_factors")
+    from ..sem import inline_private_helpers
+    wf = inline_private_helpers(idx, idx.function(RG, "write_factors"))
+    rf = inline_private_helpers(idx, idx.function(RG, "read_factors"))
     wpat = [p for p in _open_patterns(wf) if "w" in p[1] or "a" in p[1]]
     rpat = [p for p in _open_patterns(rf) if "r" in p[1]]
     if len(wpat) != 1 or len(rpat) != 1:
@@ -142,9 +154,13 @@ def run(ctx) -> None:
         raise AnalysisError(f"weight-file pattern has {len(fields)} fields, expected 1: {pat}")
     globpat_expected = pat.replace(fields[0], "*")
     globs = calls(rf.node, "glob.glob", suffix=False)
+    from ..sem import Sem as _Sem
+    RS = _Sem(idx, rf)
     for g in globs:
         r2.instance(f"{rf.short}: {norm1(g, 70)}")
         a = g.args[0]
+        if not (isinstance(a, ast.Call) and call_name(a) == "os.path.join"):
+            a = RS.resolve(a, RS.du.node_of_expr(g))
         gp = fstring_pattern(a.args[-1]) if isinstance(a, ast.Call) and call_name(a) == "os.path.join" else None
         r2.check(gp == globpat_expected, f"glob pattern {gp!r} is the writer's pattern with the index wildcarded",
                  rf, g, f"glob pattern {gp!r} does not match the files written as {pat!r} (expected {globpat_expected!r})")
@@ -177,17 +193,29 @@ def run(ctx) -> None:
                  f"the writer encoded {bad[1]}" if bad else "")
     # K-point storage path
     sp = idx.function(RG, "get_Kpoint_storage_path")
-    pats = [fstring_pattern(c.args[-1]) for c in calls(sp.node, "os.path.join", suffix=False)]
-    r2.instance(f"{sp.short}: {pats}")
+    SPS = _Sem(idx, sp)
+    joins = calls(sp.node, "os.path.join", suffix=False)
+    r2.instance(f"{sp.short}: {[norm1(c_, 60) for c_ in joins]}")
     ikp = sp.node.args.args[-1].arg
-    fs = [n for n in ast.walk(sp.node) if isinstance(n, ast.FormattedValue)]
-    r2.check(len(fs) == 1 and is_name(fs[0].value, ikp), "per-K file name is a function of the K-point index only",
+    okname = False
+    if len(joins) == 1 and joins[0].args:
+        last = SPS.resolve(joins[0].args[-1], SPS.du.node_of_expr(joins[0]))
+        if isinstance(last, ast.JoinedStr):
+            fs = [n for n in last.values if isinstance(n, ast.FormattedValue)]
+            okname = len(fs) == 1 and is_name(fs[0].value, ikp)
+        elif isinstance(last, ast.Call) and isinstance(last.func, ast.Attribute) and last.func.attr == "format" and isinstance(last.func.value, ast.Constant) \
+                and isinstance(last.func.value.value, str):
+            okname = last.func.value.value.count("{") == 1 and len(last.args) == 1 and is_name(last.args[0], ikp) and not last.keywords
+        elif isinstance(last, ast.BinOp) and isinstance(last.op, ast.Mod) and isinstance(last.left, ast.Constant):
+            okname = str(last.left.value).count("%") == 1 and (is_name(last.right, ikp) or (isinstance(last.right, ast.Tuple) and len(last.right.elts) == 1 and is_name(last.right.elts[0], ikp)))
+    r2.check(okname, "per-K file name is a function of the K-point index only",
              sp, sp.node.body[-1], "per-K result file name does not encode the K-point index: two K-points share a file")
 
     # ---------------------------------------------------------------- R11.3
     r3 = ctx.rule("R11.3", "restart bookkeeping in run()", min_instances=4)
-    runf = idx.function(RG, "run")
+    runf = inline_private_helpers(idx, idx.function(RG, "run"))
     cfg, du, pm = fctx(runf)
+    RunS = _Sem(idx, runf)
     # main iteration loop = the for loop containing the call to process(
     pcs = calls(runf.node, "process", suffix=False)
     if len(pcs) != 1:
@@ -202,8 +230,12 @@ def run(ctx) -> None:
     c = sps[0]
     r3.instance(f"{runf.short}: {norm1(c, 90)}")
     fl = enclosing(pm, c, ast.For)
-    ivar = fl.target.id if fl is not None and isinstance(fl.target, ast.Name) else None
+    ivar = fl.target.id if fl is not None and isinstance(fl.target, ast.Name) else (
+        fl.target.elts[0].id if fl is not None and isinstance(fl.target, ast.Tuple) and isinstance(fl.target.elts[0], ast.Name) and isinstance(fl.iter, ast.Call)
+        and call_name(fl.iter) == "enumerate" else None)
     recv = c.func.value
+    if not isinstance(recv, ast.Subscript):
+        recv = RunS.simplify(RunS.resolve(recv, RunS.du.node_of_expr(c)), RunS.du.node_of_expr(c))
     inner = c.args[0] if c.args else None
     ikarg = None
     if isinstance(inner, ast.Call) and call_name(inner) == "get_Kpoint_storage_path":
@@ -221,6 +253,9 @@ def run(ctx) -> None:
         it = fl.iter
         okr = isinstance(it, ast.Call) and call_name(it) == "range" and len(it.args) == 2 and \
             norm(it.args[1]).replace(" ", "") in ("len(K_list)",) and isinstance(it.args[0], ast.Name)
+        if not okr and isinstance(it, ast.Call) and call_name(it) == "enumerate" and it.args:
+            m_ = pmatch(it, "enumerate(K_list[S_:], start=S_)", {"S_"}) or pmatch(it, "enumerate(K_list[S_:], S_)", {"S_"})
+            okr = bool(m_) and m_[0][0] is it and m_[0][1]["S_"].isidentifier()
         r3.check(okr, "paths are assigned to all not-yet-assigned points range(nk_prev, len(K_list))", runf, fl,
                  f"storage paths assigned over `{norm1(it)}`, not over every new K-point")
         r3.check(cfg.dominates(cfg.node(fl), cfg.node(enclosing(pm, pcs[0], ast.stmt))),
@@ -253,7 +288,7 @@ def run(ctx) -> None:
         # start must be the 'already dumped' counter, which must be advanced to `stop` before the next dump
         sname, ename = norm(start), norm(stop)
         upd = [s for s in stmts(main) if isinstance(s, ast.Assign) and is_name(s.targets[0], sname)]
-        okupd = bool(upd) and all(norm(u.value) == ename for u in upd)
+        okupd = bool(upd) and all(norm(u.value) == ename or RunS.rnorm(u.value, cfg.node(u)) == RunS.rnorm(stop, cfg.node(dl)) for u in upd)
         r3.check(okupd, f"`{sname}` is advanced to `{ename}` inside the loop", runf, upd[0] if upd else main,
                  f"`{sname}` (number of K-points already written) is not advanced to `{ename}`", stmt=f"{sname} update")
         if upd:
@@ -268,7 +303,7 @@ def run(ctx) -> None:
                      f"restart reads duplicates")
         # stop must be len(K_list) taken after process and with no K_list growth in between
         sdef = [s for s in stmts(main) if isinstance(s, ast.Assign) and is_name(s.targets[0], ename)]
-        r3.check(len(sdef) == 1 and norm(sdef[0].value) == "len(K_list)", f"`{ename}` is len(K_list)", runf,
+        r3.check((len(sdef) == 1 and norm(sdef[0].value) == "len(K_list)") or ename.replace(" ", "") == "len(K_list)", f"`{ename}` is len(K_list)", runf,
                  sdef[0] if sdef else main, f"`{ename}` is not the current length of the K-point list")
     # (b2) initial value of the "already written" counter: everything loaded on restart, nothing on a fresh start
     if start is not None:
